@@ -111,13 +111,19 @@ class DilutionPlan:
                 break
 
         # prepare remaining columns by diluting existing ones
+        # keeping track of how much is already withdrawn from each column
+        withdrawn = numpy.zeros((C, R))
         for c in range(len(instructions), C):
             # find the first source column that can be used (with sufficient transfer volume)
             for src_c in range(0, len(instructions)):
                 _, src_df, _, _ = instructions[src_c]
                 vtransfer = numpy.ceil(vmax_arr[c] * ideal_targets[:, c] / actual_targets[src_c])
+                # a column can't give more than it holds, or receive more than its vmax
+                if any(withdrawn[src_c] + vtransfer > vmax_arr[src_c]) or any(vtransfer > vmax_arr[c]):
+                    continue
                 # take the leftmost column (least dilution steps) where the minimal transfer volume is exceeded
                 if all(vtransfer >= min_transfer):
+                    withdrawn[src_c] += vtransfer
                     instructions.append(
                         # increment the dilution step counter
                         (c, src_df + 1, src_c, vtransfer)
